@@ -54,6 +54,10 @@ def _balanced(s, i, open_ch='(', close_ch=')'):
             k += 1
             while s[k] != '"':
                 k += 2 if s[k] == '\\' else 1
+        elif c == '/' and s.startswith('//', k):
+            j = s.find('\n', k)
+            k = n if j < 0 else j
+            continue
         elif c == open_ch:
             d += 1
         elif c == close_ch:
@@ -814,3 +818,55 @@ def r20_fold(text, acc_type=None):
                 text = text[:m.start()] + new + rest
                 n += 1
     return text, n
+
+
+@rule('R21')
+def r21_map_collect(text):
+    """let NAME: Vec<_> = X.iter().map(|P| { BODY }).collect();   ->
+         let mut NAME = Vec::new(); for P in X.iter() { let vt_e = { BODY }; NAME.push(vt_e); }
+    (definition of map + collect into a Vec: the closure is applied once per element, in order)"""
+    m = re.search(r'([ \t]*)let (%s): Vec<_> = (%s)\s*\.iter\(\)\s*\.map\(\|(%s)\| \{' % (IDENT, IDENT, IDENT), text)
+    if not m:
+        return text, 0
+    ind, name, x, p = m.groups()
+    o = m.end() - 1
+    c = _balanced(text, o, '{', '}')
+    tail = re.match(r'\)\s*\.collect\(\);', text[c + 1:])
+    if not tail:
+        return text, 0
+    body = text[o:c + 1]
+    new = ('%slet mut %s = Vec::new();\n%sfor %s in %s.iter() {\n%s    let vt_e = %s;\n%s    %s.push(vt_e);\n%s}'
+           % (ind, name, ind, p, x, ind, body, ind, name, ind))
+    return text[:m.start()] + new + text[c + 1 + tail.end():], 1
+
+
+@rule('closure_annot0')
+def closure_annot0(text, rtype):
+    """|| EXPR   ->   || -> RTYPE { EXPR }     (parameterless closure; EXPR runs to the closing bracket of the enclosing call)"""
+    n = 0
+    out = ''
+    i = 0
+    pat = re.compile(r'\|\| (?!->)')
+    while True:
+        m = pat.search(text, i)
+        if not m:
+            out += text[i:]
+            break
+        k = m.end()
+        d = 0
+        while k < len(text):
+            c = text[k]
+            if c in '([{':
+                d += 1
+            elif c in ')]}':
+                if d == 0:
+                    break
+                d -= 1
+            elif c == ',' and d == 0:
+                break
+            k += 1
+        body = text[m.end():k]
+        out += text[i:m.start()] + '|| -> %s { %s }' % (rtype, body.strip())
+        i = k
+        n += 1
+    return out, n
